@@ -102,6 +102,7 @@ func (pnf *PrevNextFinder) FindOutlink(root *html.Node, pageURL *nurl.URL, findN
 
 	tmp.Fragment = ""
 	tmp.RawFragment = ""
+	tmp.Host = stringutil.ToLowerASCII(tmp.Host) // the URLs are compared as strings from here on
 
 	// Remove trailing '/' from window location href, because it'll be used to compare with
 	// other href's whose trailing '/' are also removed.
@@ -177,6 +178,7 @@ func (pnf *PrevNextFinder) FindOutlink(root *html.Node, pageURL *nurl.URL, findN
 		stringutil.TrimTrailingSlash(&escaped)
 		linkURL := escaped.String()
 
+		tmp.Host = stringutil.ToLowerASCII(tmp.Host) // compared as a string from here on
 		tmp.Path = strings.TrimSuffix(tmp.Path, "/")
 		tmp.RawPath = tmp.Path
 		linkHref = stringutil.UnescapedString(tmp)
